@@ -56,7 +56,7 @@ impl Validations {
     pub fn is_empty(&self) -> (r: bool) ensures r == self.empty() { self.v.len() == 0 }
 }
 /// the in-memory refdb of the fetch: ghost view = the refs fetched into each namespace
-pub struct Refdb;
+pub struct Refdb { pub opaque: u64 } // (a field: states of the refdb are distinguishable values)
 impl Refdb {
     pub uninterp spec fn ns(self, remote: PublicKey) -> Map<RefString, Oid>;
     /// ASSUMED (git::mem::Refdb::references_of over a BTreeMap): yields every (name, oid) of that namespace exactly once
